@@ -48,7 +48,7 @@ MUTANTS = [
     M("c05-transpose-keeps-axis-noguard", "C05", "break", [(OPS, "    if input.axis is not None:\n        return op(input.dequantize(), *args)\n    out_data = op(input._data, *args)", "    out_data = op(input._data, *args)")], "C05.R5"),
     M("c05-refactor-lt-nested-if", "C05", "refactor", [(OPS, "    if (\n        isinstance(input, QBytesTensor)\n        and isinstance(other, QBytesTensor)\n        and not input.qtype.is_floating_point\n        and not other.qtype.is_floating_point\n        and torch.equal(input._scale, other._scale)\n    ):\n        return op(input._data, other._data)", "    if isinstance(input, QBytesTensor) and isinstance(other, QBytesTensor):\n        if not input.qtype.is_floating_point and not other.qtype.is_floating_point:\n            if torch.equal(input._scale, other._scale):\n                return op(input._data, other._data)")]),
     M("c05-refactor-view-early-return", "C05", "refactor", [(OPS, "    if input.axis is None:\n        # The view is transparent for QTensor with scalar scales\n        out_data = op(input._data, *shape)\n        return QBytesTensor(input.qtype, None, out_data.size(), out_data.stride(), out_data, input._scale)\n    return qfallback(op, input, *shape)", "    if input.axis is not None:\n        return qfallback(op, input, *shape)\n    data = op(input._data, *shape)\n    return QBytesTensor(input.qtype, input.axis, data.size(), data.stride(), data, input._scale)")]),
-    M("c05-refactor-neg-locals", "C05", "refactor", [(OPS, "    out_data = op(input._data, *args, **kwargs)\n    return QBytesTensor(input.qtype, input.axis, input.size(), input.stride(), out_data, input._scale)\n\n\n@register_qbytestensor_op(\n    [\n        torch.ops.aten.expand,", "    negated = op(input._data, *args, **kwargs)\n    scale = input._scale\n    return QBytesTensor(qtype=input.qtype, axis=input.axis, size=input.size(), stride=input.stride(), data=negated, scale=scale)\n\n\n@register_qbytestensor_op(\n    [\n        torch.ops.aten.expand,")]),
+    M("c05-refactor-neg-locals", "C05", "refactor", [(OPS, "    out_data = op(data, *args, **kwargs)\n    return QBytesTensor(input.qtype, input.axis, input.size(), input.stride(), out_data, input._scale)\n\n\n@register_qbytestensor_op(\n    [\n        torch.ops.aten.expand,", "    negated = op(data, *args, **kwargs)\n    scale = input._scale\n    return QBytesTensor(qtype=input.qtype, axis=input.axis, size=input.size(), stride=input.stride(), data=negated, scale=scale)\n\n\n@register_qbytestensor_op(\n    [\n        torch.ops.aten.expand,")]),
     M("c05-refactor-register-squeeze", "C05", "refactor", [(OPS, "        torch.ops.aten.unsqueeze,\n", "        torch.ops.aten.unsqueeze,\n        torch.ops.aten.squeeze,\n")]),
     # ---------------- C06
     M("c06-split-stale-size", "C06", "break", [(OPS, "QBytesTensor(input.qtype, input.axis, out_data.size(), out_data.stride(), out_data, input._scale)\n        for out_data in out_datas", "QBytesTensor(input.qtype, input.axis, input.size(), input.stride(), out_data, input._scale)\n        for out_data in out_datas")], "C06.R1"),
